@@ -417,7 +417,7 @@ impl Repr {
     pub fn ones(n: usize) -> Self {
         if n < WORD_BITS_USIZE {
             Self::from_word(ones_word(n as _))
-        } else if n < DWORD_BITS_USIZE {
+        } else if n <= DWORD_BITS_USIZE {
             Self::from_dword(ones_dword(n as _))
         } else {
             let lo_words = n / WORD_BITS_USIZE;
